@@ -26,11 +26,11 @@ theorem fineStep_reg (k : RegKind) (s s' : State) (h : FineStep s s') :
     | authz ea g hs => subst hs; exact Or.inl (by cases k <;> rfl)
     | feegrant ea al hs => subst hs; exact Or.inl (by cases k <;> rfl)
     | revoke g hs => subst hs; exact Or.inl (by cases k <;> rfl)
-  | ante tx h =>
+  | ante tx _ _ h =>
     cases h with
     | none hs => subst hs; exact Or.inl rfl
     | unlock payer x _ _ _ _ hs => subst hs; exact Or.inl (by cases k <;> rfl)
-    | deduct src b _ hs => subst hs; exact Or.inl (by cases k <;> rfl)
+    | deduct _ _ _ _ _ _ hs => subst hs; exact Or.inl (by cases k <;> rfl)
   | time t _ hs => subst hs; exact Or.inl (by cases k <;> rfl)
   | complete id x _ hs => subst hs; exact Or.inl (by cases k <;> rfl)
   | tally id e _ hs => subst hs; exact Or.inl (by cases k <;> rfl)
